@@ -24,7 +24,7 @@ PLAN = {'quick': dict(workers=6, timeout_s=1200), 'thorough': dict(workers=14, t
 MIN_EVENTS = {'quick': {'oracle:input_unchanged': 1000, 'oracle:returned_collections': 300, 'oracle:deterministic': 300,
                         'hook.put_variable': 2000, 'oracle:write_admitted': 800, 'oracle:aliasing': 300, 'oracle:bad_write': 40,
                         'oracle:leaked_scope': 20, 'oracle:observation_inert': 30},
-              'thorough': {'oracle:input_unchanged': 30000, 'hook.put_variable': 60000}}
+              'thorough': {'oracle:input_unchanged': 15000, 'hook.put_variable': 30000}}
 
 
 def filters():
